@@ -23,9 +23,10 @@ theorem reach_inv (hv : g.Valid) (steps : List Step) : Inv g H NoDisc (run H g (
 
 /-! ### accounting -/
 
-/-- one store, every interleaving: net allocation = Σ piece lengths of the pieces holding a
-    buffer; `count` = their number (so it is never negative and `Bytes() = count·pieceSize`
-    over-estimates the allocation). -/
+/-- one store, every interleaving AND every outcome of every `alloc.Alloc` (each `addData`
+    step carries `allocOk`, chosen by the environment: mmap may be refused at any call): net
+    allocation = Σ piece lengths of the pieces holding a buffer; `count` = their number (so it
+    is never negative and `Bytes() = count·pieceSize` over-estimates the allocation). -/
 theorem C03_accounting (hv : g.Valid) (steps : List Step) :
     let s := run H g (init g) steps
     s.allocated = (held g s : Int) ∧ s.count = (holding s.pieces : Int) ∧ 0 ≤ s.count ∧
@@ -46,6 +47,50 @@ theorem C03_accounting (hv : g.Valid) (steps : List Step) :
   have := hle 0 (run H g (init g) steps).pieces
   unfold held
   exact_mod_cast this
+
+/-- an `AddData` whose allocation fails changes nothing at all — no buffer, no `count++`, no
+    bitmap bit, no byte accounted — and reports the error; it can be retried any number of
+    times. -/
+theorem C03_alloc_failure_noop (s : State) (i begin : Nat) (inp : Bytes) (peer : Nat)
+    (h : allocNeeded g s i begin = true) :
+    addDataA g s i begin inp peer false = (s, .add 0 false .nomem) := by
+  unfold addDataA
+  simp [h]
+
+/-- … and an allocation is only ever attempted for an incomplete piece without a buffer of a
+    torrent that is not deleted (so a failure can only hit such a piece) -/
+theorem C03_alloc_only_when_needed (s : State) (i begin : Nat) (inp : Bytes) (peer : Nat)
+    (ok : Bool) (h : allocNeeded g s i begin = false) :
+    addDataA g s i begin inp peer ok = addData g s i begin inp peer ∧
+    (addData g s i begin inp peer).1.nextBuf = s.nextBuf := by
+  constructor
+  · unfold addDataA; simp [h]
+  · unfold allocNeeded at h
+    unfold addData
+    cases hp : s.pieces[i]? with
+    | none => rfl
+    | some p =>
+      rw [hp] at h
+      simp only
+      by_cases h1 : p.state ≠ .incomplete
+      · rw [if_pos h1]
+      rw [if_neg h1]
+      by_cases h2 : s.deleted = true
+      · rw [if_pos h2]
+      rw [if_neg h2]
+      by_cases h3 : begin % g.cs ≠ 0
+      · rw [if_pos h3]
+      rw [if_neg h3]
+      by_cases h4 : begin ≥ g.pieceLength i
+      · rw [if_pos h4]
+      rw [if_neg h4]
+      cases hd : p.data with
+      | some b => rfl
+      | none =>
+        exfalso
+        have e1 : p.state = .incomplete := by cases hs : p.state <;> simp_all
+        simp [e1, h2, hd] at h
+        omega
 
 /-- several stores sharing `alloc.allocated` -/
 structure World where
@@ -621,9 +666,9 @@ theorem finEnd_other (s : State) (i j : Nat) (h : Bytes) (hne : i ≠ j) :
 theorem step_deleted (s : State) (hdel : s.deleted = true) (st : Step) :
     (Piece.step H g s st).1.deleted = true := by
   cases st with
-  | addData j b blk peer =>
-    show (addData g s j b blk peer).1.deleted = true
-    rw [(C01.C01_deleted_refuses g s hdel j).1 b blk peer]; exact hdel
+  | addData j b blk peer ok =>
+    show (addDataA g s j b blk peer ok).1.deleted = true
+    rw [C01.addDataA_deleted g s hdel j b blk peer ok]; exact hdel
   | finBegin j =>
     show (finBegin g s j).1.deleted = true
     rw [(C01.C01_deleted_refuses g s hdel j).2]; exact hdel
@@ -674,7 +719,7 @@ theorem C03_deleted_never_allocates (Good : Nat → Bytes → Prop) (s : State) 
   have hlt : i < s.pieces.length := (List.getElem?_eq_some_iff.mp hp).1
   have hidle : p.state = .incomplete := ((hinv.pieces i p hp).nodata hd).2.1
   cases st with
-  | addData j b blk peer => exact same _ ((C01.C01_deleted_refuses g s hdel j).1 b blk peer)
+  | addData j b blk peer ok => exact same _ (C01.addDataA_deleted g s hdel j b blk peer ok)
   | finBegin j => exact same _ (C01.C01_deleted_refuses g s hdel j).2
   | hashRead j =>
     apply same
@@ -1101,9 +1146,9 @@ def C03_orig_del_full : Prop :=
 /-- piece 1 is being hashed; `Del` frees piece 0 and waits (lock released) for piece 1;
     AddData refills piece 0 (`deleted` not yet set); `Del` finishes: piece 0 survives. -/
 def latchWitness : List (Bool × Step) :=
-  [(false, .addData 0 0 [1, 2] 1), (false, .addData 1 0 [3, 4] 1), (false, .finBegin 1),
+  [(false, .addData 0 0 [1, 2] 1 true), (false, .addData 1 0 [3, 4] 1 true), (false, .finBegin 1),
    (true, .del 0 true),
-   (false, .addData 0 0 [5, 6] 1), (false, .finEnd 1 []),
+   (false, .addData 0 0 [5, 6] 1 true), (false, .finEnd 1 []),
    (true, .del 1 true), (true, .latch)]
 
 theorem C03_orig_del_latch_refuted : ¬ C03_orig_del_full := by
@@ -1125,9 +1170,9 @@ theorem C03_orig_del_latch_refuted : ¬ C03_orig_del_full := by
 
 /-- the same interleaving against the repaired order: the late AddData is refused -/
 example : ((runT gW HW (init gW)
-    [(false, .addData 0 0 [1, 2] 1), (false, .addData 1 0 [3, 4] 1), (false, .finBegin 1),
+    [(false, .addData 0 0 [1, 2] 1 true), (false, .addData 1 0 [3, 4] 1 true), (false, .finBegin 1),
      (true, .latch), (true, .del 0 true),
-     (false, .addData 0 0 [5, 6] 1), (false, .finEnd 1 []),
+     (false, .addData 0 0 [5, 6] 1 true), (false, .finEnd 1 []),
      (true, .del 1 true)]).map (fun s => (s.deleted, s.allocated, s.count))) = some (true, 0, 0) := by
   decide
 
@@ -1136,7 +1181,7 @@ example : ((runT gW HW (init gW)
     next line panics "Negative pieces count" — inside `Pieces.Del`, i.e. in `Torrent.run`'s
     exit path.  `delResumeOrig` is that continuation. -/
 theorem C03_orig_del_double_count :
-    let s0 := run HW gW (init gW) [.addData 0 0 [1, 2] 1, .finBegin 0]
+    let s0 := run HW gW (init gW) [.addData 0 0 [1, 2] 1 true, .finBegin 0]
     (del s0 0 true).2 = .del false false true ∧          -- Del has to wait for the hasher
     (let s1 := (finEnd HW s0 0 [9]).1                     -- the hash fails: piece freed
      s1.count = 0 ∧ (delResumeOrig s1 0).2 = .panic "Negative pieces count" ∧
@@ -1480,13 +1525,13 @@ theorem C03_expire_reaches_low_mark (Good : Nat → Bytes → Prop) (ts : List (
 
 /-- two torrents of two full pieces each (Bytes() = 4 each), mark 4 (low 3), 8 bytes allocated:
     fair = 1, fair2 = 1 ≥ fair, both selected; after the passes nothing is allocated -/
-def sFull : State := run HW gW (init gW) [.addData 0 0 [1, 2] 1, .addData 1 0 [3, 4] 1]
+def sFull : State := run HW gW (init gW) [.addData 0 0 [1, 2] 1 true, .addData 1 0 [3, 4] 1 true]
 example : policy true 4 8 2 [bytesE (gW, sFull), bytesE (gW, sFull)]
     [bytesE (gW, sFull), bytesE (gW, sFull)] = .evict 1 [0, 1] := by decide
 example : sumHeld ([(gW, sFull), (gW, sFull)].map (passOne 1 (fun _ => [1, 0]))) = 0 := by decide
 /-- … and the other disjunct: a torrent whose pieces are being hashed stays above fair2 -/
 def sBusy : State := run HW gW (init gW)
-  [.addData 0 0 [1, 2] 1, .addData 1 0 [3, 4] 1, .finBegin 0, .finBegin 1]
+  [.addData 0 0 [1, 2] 1 true, .addData 1 0 [3, 4] 1 true, .finBegin 0, .finBegin 1]
 example : bytesE (passOne 1 (fun _ => [0, 1]) (gW, sBusy)) = 4 ∧
     ((passOne 1 (fun _ => [0, 1]) (gW, sBusy)).2.pieces.all (fun p => p.state == .busy)) = true := by
   decide
@@ -1496,17 +1541,17 @@ example : bytesE (passOne 1 (fun _ => [0, 1]) (gW, sBusy)) = 4 ∧
     callbacks for the two complete pieces only -/
 example :
     let s0 := run HW gW3 (init gW3)
-      [.addData 0 0 [1, 2] 1, .finBegin 0, .finEnd 0 [], .addData 1 0 [3, 4] 1,
-       .addData 2 0 [5, 6] 1, .finBegin 2, .finEnd 2 []]
+      [.addData 0 0 [1, 2] 1 true, .finBegin 0, .finEnd 0 [], .addData 1 0 [3, 4] 1 true,
+       .addData 2 0 [5, 6] 1 true, .finBegin 2, .finEnd 2 []]
     (passRun HW gW3 s0 (expStart gW3 s0 0 10 [])
-      [.visit 0, .other (.addData 0 0 [7, 8] 1), .visit 1, .visit 2, .visit 0]).cbs = [0, 2] := by
+      [.visit 0, .other (.addData 0 0 [7, 8] 1 true), .visit 1, .visit 2, .visit 0]).cbs = [0, 2] := by
   decide
 
 
 example : gW.Valid := ⟨by decide, by decide⟩
 example : expLegal [9000, 100, 8000] [1, 5, 3] [0, 1, 2] 2 = true := by decide   -- commonest of the old
 example : expLegal [9000, 100, 8000] [1, 5, 3] [0, 1, 2] 1 = false := by decide
-example : (expRun gW (run HW gW (init gW) [.addData 0 0 [1, 2] 1, .addData 1 0 [3, 4] 1]) 4 [1, 0]).1.count = 0 := by
+example : (expRun gW (run HW gW (init gW) [.addData 0 0 [1, 2] 1 true, .addData 1 0 [3, 4] 1 true]) 4 [1, 0]).1.count = 0 := by
   decide
 
 end Storrent.Props.C03
